@@ -193,7 +193,7 @@ func c11Program(lines []c11Line, include []bool) (string, []int) {
 
 func c11Check(env *core.Env, ci any) (res core.Result) {
 	c := ci.(*c11Case)
-	tc := sut.Toolchain{Dir: env.Toolchain}
+	tc := tcOf(env)
 	n := len(c.Lines)
 	include := make([]bool, n)
 	for i := range include {
